@@ -176,7 +176,7 @@ func writeReplay(e *Engine, u *Unit, o *Obl, path string, reason string, repo st
 			fmt.Fprintf(&sb, "\n--- generated replay test (in-package, injected with go test -overlay) ---\n%s\n--- replay result: %s ---\n%s\n", src, res, trunc(out, 3000))
 			confirmed = res == "reproduced"
 		} else {
-			sb.WriteString("\nno concrete input could be derived from the model for this obligation\n")
+			sb.WriteString("\nno concrete input could be derived from the model for this obligation: " + u.replayWhy + "\n")
 		}
 	}
 	os.WriteFile(path, []byte(sb.String()), 0o644)
